@@ -50,12 +50,12 @@ type N struct {
 	M  map[string]*N
 	I  interface{}
 	Emb
-	PS *[]*N
-	PM *map[string]*N
-	A  [2]*N
-	SI []interface{}
-	MI map[string]interface{}
-	L  interface{}
+	PS  *[]*N
+	PM  *map[string]*N
+	A   [2]*N
+	SI  []interface{}
+	MI  map[string]interface{}
+	L   interface{}
 	BK  *Book
 	ROW *[2]Cell
 	ON  *ON
@@ -130,11 +130,11 @@ type RtPanicM struct{ X int }
 func rtIndex(x int) []byte { var a []byte; _ = a[x+3]; return a }
 
 func (v RtPanicM) MarshalBinary() ([]byte, error) { return rtIndex(v.X), nil }
-func (*RtPanicM) UnmarshalBinary([]byte) error     { return nil }
+func (*RtPanicM) UnmarshalBinary([]byte) error    { return nil }
 func (v RtPanicM) MarshalText() ([]byte, error)   { return rtIndex(v.X), nil }
-func (*RtPanicM) UnmarshalText([]byte) error       { return nil }
+func (*RtPanicM) UnmarshalText([]byte) error      { return nil }
 func (v RtPanicM) MarshalJSON() ([]byte, error)   { return rtIndex(v.X), nil }
-func (*RtPanicM) UnmarshalJSON([]byte) error       { return nil }
+func (*RtPanicM) UnmarshalJSON([]byte) error      { return nil }
 
 type RtPanicSelfer struct{ X int }
 
@@ -162,21 +162,21 @@ type IVal struct {
 }
 
 type NodeDesc struct {
-	P, PP, EP    int
-	S, M, PS, PM []int // nil = nil slice/map/pointer; element -1 = nil pointer
-	I, EI        IVal
-	A            [2]int
-	SI, MI       []IVal
-	HasSI, HasMI bool
+	P, PP, EP        int
+	S, M, PS, PM     []int // nil = nil slice/map/pointer; element -1 = nil pointer
+	I, EI            IVal
+	A                [2]int
+	SI, MI           []IVal
+	HasSI, HasMI     bool
 	Book             string // "", plain: BK.Ref = &BK.Header (acyclic); cyc: also BK.Header.Back = &BK.Header (a real cycle)
 	BookUp, BookNext int
 	Row              string // "", peer10: ROW[1].Peer = &ROW[0] (acyclic); self0: also ROW[0].Peer = &ROW[0] (a real cycle)
 	RowUp            int
 	On, OnA          string // "", chain: x1 -> x2 -> nil; cycle: x1 -> x2 -> x1; self: x1 -> x1  (ON / ONA values hung on the node)
 	OnUp, OnAUp      int    // x2.Up (x1.Up for self)
-	PSNil, PMNil bool   // PS / PM point to a NIL slice / map (pointer to a nil collection)
-	L            string // "", func, sendchan, recvchan, complex, complexok, raw, oddmbs, evenmbs, failm, panicm, failselfer, unsafeptr
-	LPtr         bool   // leaf behind a pointer (failm/panicm/failselfer)
+	PSNil, PMNil     bool   // PS / PM point to a NIL slice / map (pointer to a nil collection)
+	L                string // "", func, sendchan, recvchan, complex, complexok, raw, oddmbs, evenmbs, failm, panicm, failselfer, unsafeptr
+	LPtr             bool   // leaf behind a pointer (failm/panicm/failselfer)
 }
 
 type GraphDesc struct {
@@ -1314,7 +1314,8 @@ func runCase(id int, c caseCfg, cv *vh.Cases, sum *vh.Summary, stream string) {
 		panic("cycle detectors disagree (reflect walk vs description)")
 	}
 	if ptrOnly {
-		b, _ := json.Marshal(d); panic("generator produced a pointer-free cycle in an in-process case " + string(b))
+		b, _ := json.Marshal(d)
+		panic("generator produced a pointer-free cycle in an in-process case " + string(b))
 	}
 	if !c.chk && cyc {
 		panic("in-process case would overflow the stack")
